@@ -387,6 +387,138 @@ def check(run):
     run.notes.append("after rollback sweep: %.1f s" % (time.time() - t_start))
     run.sample({"rollback_case": rcases[0]["model"], "model": rout[0] if rout else None})
 
+    # ------------------------------------------------------------------ 3a. validation decision per kind (tie of *_validate)
+    vd_cases, vd_lines = [], []
+    for ei, (kind, args, render, sc0, li0, fl0, only) in enumerate(T.VALIDATE):
+        variants_kw = []
+        if only is None or "s" in only:
+            for kw in sc0:
+                for v in T.VALIDATE_VALUES:
+                    variants_kw.append(("s", kw, v))
+        if only is None or "l" in only:
+            for kw in li0:
+                for v in T.VECTOR_VALUES + ["-", "3 0", "0 3", "3 3"]:
+                    variants_kw.append(("l", kw, v))
+        for kw in fl0:
+            for v in ("on", "off"):
+                variants_kw.append(("f", kw, v))
+        variants_kw.append(("base", "", ""))
+        if quick:
+            # the values at which the guards decide (0, -1, keyword absent) always; a random dozen of the others
+            must = [t for t in variants_kw if t[0] == "base" or t[0] == "f" or (t[0] == "s" and t[2] in ("0", "-1", "-")) or (t[0] == "l" and t[2] in ("-", "1", ""))]
+            rest = [t for t in variants_kw if t not in must]
+            r.shuffle(rest)
+            variants_kw = must + rest[:10]
+        for typ, kw, v in variants_kw:
+            sc_, li_, fl_ = dict(sc0), dict(li0), dict(fl0)
+            if typ == "s" and kind == "walls" and kw == "forceConstant" and v == "1e-300":
+                run.dist("validate:boundary-ambiguous")
+                continue          # the product of the two constants underflows to 0 in binary64, not in the exact model
+            if typ == "s" and v == "-" and kind == "opesx" and kw in ("epsilon", "kernelCutoff"):
+                continue          # their defaults are exp()/sqrt() of the other parameters: not modelled
+            if typ == "s":
+                if v == "-":
+                    sc_.pop(kw)
+                else:
+                    sc_[kw] = v
+            elif typ == "l":
+                if v == "-":
+                    li_.pop(kw)
+                else:
+                    li_[kw] = v.split()
+            elif typ == "f":
+                fl_[kw] = v
+            conf = render(sc_, li_, fl_)
+            line = "validate kind=%s %s %s %s %s" % (kind, " ".join("%s=%s" % kv for kv in args.items()),
+                                                     " ".join("s:%s=%s" % kv for kv in sc_.items()),
+                                                     " ".join("l:%s=%s" % (k_, ",".join(v_)) for k_, v_ in li_.items()),
+                                                     " ".join("f:%s=%s" % kv for kv in fl_.items()))
+            vd_cases.append((kind, ei, typ, kw, v, conf))
+            vd_lines.append(line)
+    vd_lines = [(l.replace("bfinf=0", "bfinf=1") if re.search(r"s:biasfactor=(inf|INF)( |$)", l) else l) for l in vd_lines]
+    rc, vdout, vderr = V.run_lines(model, vd_lines)
+    vdjobs = []
+    for k, c in enumerate(vd_cases):
+        sc = T.scenario(c[5], 3, nsteps=4)
+        for var in variants:
+            if var == "asan" and quick and k % 6 != run.seed % 6:
+                continue
+            vdjobs.append(((k, var), plain if var == "plain" else asan, sc, os.path.join(W, "vd", var, str(k)), var, 20 if var == "plain" else 60))
+    vdres = L.run_many(vdjobs)
+    for (k, var), rr in sorted(vdres.items()):
+        kind, ei, typ, kw, v, conf = vd_cases[k]
+        mo = vdout[k] if k < len(vdout) else "<none>"
+        lc = last_config(rr)
+        impl = rr["cls"] if rr["cls"] != "ok" else (lc[0] if lc else "?")
+        run.count(("validate", kind, kw, value_class(v) if typ == "s" else v, var), impl != "ok")
+        run.dist("validate:%s:%s" % (kind, "accept" if impl == "ok" else "reject" if rr["cls"] == "ok" else "died"))
+        if rr.get("skipped"):
+            continue
+        sc = T.scenario(conf, 3, nsteps=4)
+        if rr["cls"] != "ok":
+            report_death(kind, kw or "base", v or "base", var, rr, sc, " (model: %s)" % mo)
+            run.mismatch("validate:%s.%s" % (kind, kw or "base"), "%s = %s (%s)" % (kw, v, var), rr["cls"], mo)
+            continue
+        if impl != "ok":
+            check_survivors(kind, kw, v, var, rr, sc)
+        if impl != mo:
+            run.mismatch("validate:%s.%s" % (kind, kw or "base"), "%s %s = %s (%s)" % (kind, kw, v, var), impl, mo)
+    if os.environ.get("C10_DUMP"):
+        json.dump(getattr(run, "mismatches", {}), open(os.environ["C10_DUMP"], "w"), indent=1)
+    run.sample({"validate_case": vd_lines[0], "model": vdout[0] if vdout else None})
+
+    # ------------------------------------------------------------------ 3a'. sessions: a rejected configuration, then a valid one
+    # (module-level residue: the harmonicWalls block queued by the legacy lowerWall/upperWall keywords of a variable)
+    sess = [gen_session(r, k) for k in range(16 if quick else 120)]
+    rc, sout, serr = V.run_lines(model, [c["model"] for c in sess])
+    sjobs = []
+    for k, c in enumerate(sess):
+        sjobs.append(((k, "s"), plain, c["scenario"], os.path.join(W, "ss", str(k)), "plain", 30))
+        if c["fresh"]:
+            sjobs.append(((k, "f"), plain, c["fresh"], os.path.join(W, "sf", str(k)), "plain", 30))
+        if asan and (not quick or k % 4 == run.seed % 4):
+            sjobs.append(((k, "a"), asan, c["scenario"], os.path.join(W, "sa", str(k)), "asan", 60))
+    sres = L.run_many(sjobs)
+    for k, c in enumerate(sess):
+        rr = sres[(k, "s")]
+        run.count(("session", c["shape"]), True)
+        run.dist("session:" + c["shape"].split(":")[0])
+        for tag in ("s", "a"):
+            r2 = sres.get((k, tag))
+            if r2 is not None and r2["cls"] != "ok" and not r2.get("skipped"):
+                report_death("session", "legacy-walls", c["shape"], "plain" if tag == "s" else "asan", r2, c["scenario"], vclass=c["shape"])
+        if rr["cls"] != "ok":
+            continue
+        ol = objs_lines(rr["out"])
+        crs = L.config_results(rr["out"])
+        impl = " ; ".join("%s cv=%s bias=%s" % ("accept" if cr[0] == "ok" else "reject", o[0].rstrip(","), o[1].rstrip(","))
+                          for cr, o in zip(crs[1:], ol[1:1 + len(crs) - 1]))
+        mo = sout[k] if k < len(sout) else "<none>"
+        if impl != mo:
+            run.mismatch("rollback:residue:lists", c["model"], impl, mo)
+        # oracle 1 (implementation alone): a configuration only defines objects that its text names
+        last_objs = set((ol[len(crs) - 1][0] + ol[len(crs) - 1][1]).rstrip(",").split(",")) if len(ol) >= len(crs) else set()
+        prev_objs = set((ol[len(crs) - 2][0] + ol[len(crs) - 2][1]).rstrip(",").split(",")) if len(crs) >= 2 and len(ol) >= len(crs) - 1 else set()
+        extra_objs = [o for o in (last_objs - prev_objs) if o and o not in c["last_names"]]
+        if extra_objs:
+            run.violation("rollback:residue", "the last configuration of the session defines only %s but the objects %s appeared with it: "
+                          "left over from the earlier, rejected configuration (%s)" % (sorted(c["last_names"]), sorted(extra_objs), c["shape"]),
+                          {"kind": "scenario", "scenario": c["scenario"]})
+        # oracle 2: after a configuration whose first object was rejected, the valid one behaves as in a fresh session
+        if c["fresh"]:
+            rf = sres[(k, "f")]
+            if rf["cls"] == "ok":
+                def tail(out):
+                    i = out.rfind("CONFIG ")
+                    return [l for l in out[i:].split("\n") if l.split(" ")[0] in ("CONFIG", "OBJS", "STEP", "ENERGY", "CV", "BIAS", "ATOMF", "SAVE", "POSTRUN")]
+                ts, tf = tail(rr["out"]), tail(rf["out"])
+                if ts != tf:
+                    kx = next((i for i, (a_, b_) in enumerate(zip(ts, tf)) if a_ != b_), min(len(ts), len(tf)))
+                    run.violation("rollback:residue", "a valid configuration supplied after a rejected one (%s) does not behave as in a session that never saw "
+                                  "the rejected one: %s instead of %s" % (c["shape"], ts[kx] if kx < len(ts) else "<missing>", tf[kx] if kx < len(tf) else "<missing>"),
+                                  {"kind": "scenario", "scenario": c["scenario"], "fresh_session": c["fresh"]})
+    run.sample({"session_case": sess[0]["model"], "model": sout[0] if sout else None})
+
     # ------------------------------------------------------------------ 3b. structural cases of the property text
     jobs = []
     for k, (label, conf, expect) in enumerate(T.STRUCTURAL):
@@ -660,6 +792,53 @@ def gen_rollback_case(r, k):
     sc = T.scenario(conf + bias_txt, 3, nsteps=4, base2=True, late=late)
     nfail = sum(1 for c in cvs if c.endswith(":1")) + sum(1 for (_, _, f) in items if f)
     return {"model": model, "scenario": sc, "nfail": nfail, "shape": "%dcv-%db-%df%s" % (ncv, nb, nfail, "-late" if late else ""), "failing_names": failing}
+
+
+def gen_session(r, k):
+    """base objects; a configuration with legacy wall keywords that is rejected (or accepted); optionally `cv reset`;
+    then a valid configuration.  Returns the scenario, the model line, and (when the first object of the rejected
+    configuration is the rejected one) the scenario of a fresh session that never saw it."""
+    kind = ["walls-wrong-order", "walls-then-bad-extended", "walls-then-bad-colvar", "walls-then-bad-bias", "walls-accepted",
+            "walls-only-lower-then-bad-colvar"][k % 6]
+    reset = (k // 6) % 3 == 2
+    walls = "  lowerWall 1.0\n  lowerWallConstant 10.0\n  upperWall 3.0\n  upperWallConstant 10.0\n"
+    if kind == "walls-wrong-order":
+        walls = "  lowerWall 3.0\n  lowerWallConstant 10.0\n  upperWall 1.0\n  upperWallConstant 10.0\n"
+    if kind == "walls-only-lower-then-bad-colvar":
+        walls = "  lowerWall 1.0\n  lowerWallConstant 10.0\n"
+    d = T.cv("d", 1, walls + ("  extendedLagrangian on\n  extendedFluctuation -1.0\n" if kind == "walls-then-bad-extended" else ""))
+    first_rejected = kind in ("walls-wrong-order", "walls-then-bad-extended")
+    conf1, m1 = d, "d:%d:1" % (1 if first_rejected else 0)
+    if kind in ("walls-then-bad-colvar", "walls-only-lower-then-bad-colvar"):
+        conf1 += T.cv("bad", 2, "  width -1\n")
+        m1 += ",bad:1:0"
+    mb1 = "-"
+    if kind == "walls-then-bad-bias":
+        conf1 += "harmonic {\n  name hb\n  colvars d\n  centers 1.0\n  forceConstant 1.0\n  timeStepFactor 0\n}\n"
+        mb1 = "harmonic:hb:1"
+    # the valid configuration: the same variable name without walls when d was rejected, another variable otherwise
+    vname = "d" if first_rejected else "e"
+    conf2 = T.cv(vname, 1) + "harmonic {\n  name hv\n  colvars %s\n  centers 2.0\n  forceConstant 1.0\n}\n" % vname
+    m2 = "%s:0:0/harmonic:hv:0" % vname
+    def scen(with_first, do_reset):
+        S = ["natoms 4", "prefix out", "restartfreq 3", "temperature 300", "new"]
+        for a in range(4):
+            S.append("pos %d %g %g %g" % (a + 1, 0.25 * a, 0.5 * a, T.ZS[0][a]))
+        S += ["config EOF", T.BASE + "EOF", "objs"]
+        if with_first:
+            S += ["config EOF", conf1.rstrip("\n"), "EOF", "objs"]
+        if do_reset:
+            S += ["script cv reset"]
+        S += ["config EOF", conf2.rstrip("\n"), "EOF", "objs"]
+        for kk in range(4):
+            for a in range(4):
+                S.append("pos %d %g %g %g" % (a + 1, 0.25 * a, 0.5 * a, T.ZS[kk][a]))
+            S.append("step")
+        S += ["save text s.state", "postrun", "objs"]
+        return "\n".join(S) + "\n"
+    model = "session have_cv=zz0 have_bias=hh0:harmonic cfgs=%s/%s|%s%s" % (m1, mb1, "RESET|" if reset else "", m2)
+    return {"scenario": scen(True, reset), "fresh": scen(False, reset) if first_rejected else None, "model": model,
+            "shape": kind + (":reset" if reset else ""), "last_names": {vname, "hv"}}
 
 
 # ------------------------------------------------------------------------------------------------
